@@ -71,6 +71,21 @@ def check(ctx: Ctx) -> list[RuleResult]:
                             kw = {k.arg: norm(k.value) for k in call.keywords}  # type: ignore[union-attr]
                             if a == args and (kw.get("sending") == "True") == sending:
                                 guards.append(norm(call))
+            if not guards:
+                # the same, however the gate's verdict is held (a local, hoisted ids, if/else either way round): at the call the
+                # copy-propagated facts must imply that _is_wanted_addrs(<these ids>) returned true
+                from .common import edge_implies, expand as _expand10, facts_at
+
+                st_ = s
+                while not isinstance(st_, ast.stmt):
+                    st_ = st_.parent  # type: ignore[attr-defined]
+                goal = ast.parse(f"self._is_wanted_addrs({args[0]}, {args[1]}{', sending=True' if sending else ''})", mode="eval").body
+                for t_, v_ in facts_at(st_):
+                    te = _expand10(f.node, t_, pure_only=False)
+                    # hoisted argument locals inside the expanded call
+                    te = _expand10(f.node, te, pure_only=False)
+                    if edge_implies(te, v_, goal):  # type: ignore[arg-type]
+                        guards.append(norm(goal))
             if guards:
                 r1.ok({"gate": f"{f.short}", "guard": guards[0]})
             else:
@@ -231,7 +246,9 @@ def check(ctx: Ctx) -> list[RuleResult]:
     r4.instances += 1
     r4.nontrivial += 1
     inc = [norm(n) for n in own_nodes(init.node) if isinstance(n, (ast.Assign, ast.AugAssign)) and "self._include" in norm(n.targets[0] if isinstance(n, ast.Assign) else n.target)]
-    if any("ALL_DEV_ADDR.id" in x and "NON_DEV_ADDR.id" in x for x in inc) and any("include_list.keys()" in x for x in inc):
+    # built from the known list's ids (keys() / iteration / unpacking of the mapping) plus the two ids, in one or more statements
+    from_known = any(isinstance(x, ast.Name) and x.id == "include_list" for n in own_nodes(init.node) if isinstance(n, (ast.Assign, ast.AugAssign)) and "self._include" in norm(n.targets[0] if isinstance(n, ast.Assign) else n.target) for x in ast.walk(n.value))
+    if any("ALL_DEV_ADDR.id" in x for x in inc) and any("NON_DEV_ADDR.id" in x for x in inc) and from_known:
         r4.ok({"_include": inc})
     else:
         r4.fail(f"{init.short}:_include-init", init.loc(), f"_include is no longer the known list plus the broadcast and null ids: {inc}")
